@@ -424,14 +424,16 @@ void op_it_next(const Step& s) {
 	api_begin();
 	for (long k = 0; k < n && !it.done; ++k) {
 		count(c_iter_steps);
+		// a client loop may test for the end with either comparison: both are evaluated and must be complementary
+		auto at_end = [&](bool eq, bool ne, const char* site) { if (eq == ne) violation("C12.iterator-comparison", site, std::string("operator== and operator!= of a view iterator both say ") + (eq ? "true" : "false") + " after " + std::to_string(it.yielded.size()) + " rules"); return ((k + s.arg(0)) & 1) ? eq : !ne; };
 		if (it.kind == 0) {
-			if (!(*it.it != *it.end)) { finish_iter(it, "it_next:all"); break; }
+			if (at_end(*it.it == *it.end, *it.it != *it.end, "it_next:all")) { finish_iter(it, "it_next:all"); break; }
 			it.yielded.insert(to_rule(*it.aut, **it.it)); ++(*it.it);
 		} else if (it.kind == 1) {
-			if (!(*it.ait != *it.aend)) { finish_iter(it, "it_next:accept"); break; }
+			if (at_end(*it.ait == *it.aend, *it.ait != *it.aend, "it_next:accept")) { finish_iter(it, "it_next:accept"); break; }
 			it.yielded.insert(to_rule(*it.aut, **it.ait)); ++(*it.ait);
 		} else {
-			if (!(*it.dit != *it.dend)) { finish_iter(it, "it_next:down"); break; }
+			if (at_end(*it.dit == *it.dend, *it.dit != *it.dend, "it_next:down")) { finish_iter(it, "it_next:down"); break; }
 			it.yielded.insert(to_rule(*it.aut, **it.dit)); ++(*it.dit);
 		}
 		if (it.yielded.size() > it.expect.size() + 64) violation("C12.view-terminates", "it_next", "view yielded far more rules than exist");
